@@ -240,7 +240,7 @@ def run(rng, res, tier, shard, nshards):
         f = check_case(case, res)
         am = case['amodel']
         res.case(digest([case['spec'], am]) if len(am['assets']) >= 2 and am['links'] else None)
-        if res.evaluations % 199 == 3:
+        if len(res.samples) < 3 and len(am['assets']) >= 2 and am['links']:
             res.sample({'assets': [(a['id'], a['name'], a['type']) for a in am['assets']][:6], 'links': am['links'][:6]})
         if f:
             res.violation(f[0], f[1], case)
